@@ -188,10 +188,17 @@ def judge_roundtrip(rec, h5path, idnt, user, case):
     r = mine[0]
     ds = r["data_set"]
     for col in COLS:
-        rec.check(col in ds and np.array_equal(np.asarray(ds[col]),
-                                               np.asarray(idnt[col]),
-                                               equal_nan=True),
-                  "roundtrip/column/" + col.replace(" ", "-"),
+        try:
+            same_col = col in ds and np.array_equal(
+                np.asarray(ds[col]), np.asarray(idnt[col]), equal_nan=True)
+        except BaseException as e:  # noqa
+            rec.violation("roundtrip/column-unreadable/"
+                          + col.replace(" ", "-"),
+                          "column '%s' of the loaded curve cannot be read: "
+                          "%s %s" % (col, type(e).__name__, str(e)[:60]),
+                          case)
+            continue
+        rec.check(same_col, "roundtrip/column/" + col.replace(" ", "-"),
                   "column '%s' differs after the round trip" % col, case)
     fa, fb = dict(idnt.fit_properties), dict(ds.fit_properties)
     for k in fa:
@@ -411,9 +418,13 @@ def folder_load(rec, rng, cid, scratch, h5path, stored, hist):
             continue
         rec.event("folder entries compared with what was stored")
         for col in COLS:
-            rec.check(col in ds and np.array_equal(
-                np.asarray(ds[col]), np.asarray(cand[0][col]),
-                equal_nan=True),
+            try:
+                same_col = col in ds and np.array_equal(
+                    np.asarray(ds[col]), np.asarray(cand[0][col]),
+                    equal_nan=True)
+            except BaseException:  # noqa
+                same_col = False
+            rec.check(same_col,
                 "folder-load/column/" + col.replace(" ", "-"),
                 "container %s: column '%s' differs from what was stored "
                 "there" % (cont, col), case)
